@@ -25,5 +25,5 @@ def run(F, tier):
     # C05 keeps only the component-validation part of T2 (text-typed date components)
     rep.findings = [f for f in rep.findings if not (f.rule == "T2" and not f.instance.startswith("text-date"))]
     rep.sample({"U1": "char predicate call sites in the closure of parsers", "count": rep.rules["U1"]["instances"]})
-    accept.u6(rep, F)
+    accept.u6(rep, F, "fields")
     return rep
